@@ -3,7 +3,7 @@ package main
 func init() {
 	register(prop{
 		ID: "C02", Pkg: "c02",
-		Rule:        "rapid draws sequences (<=25 steps) of JSON-RPC envelopes from a grammar: id absent / string (empty, unicode, digit strings) / integer over the whole int64 range incl. +-2^53+-1 and Min/MaxInt64; method known call, known notification, unknown, empty; params absent/null/valid/wrong-typed/array; id on notification-only methods, no id on call methods; batches of any composition (negotiated version < 2025-06-18); re-use of in-flight ids; tool handlers parked on gates and released in generated order. Same scripts over the streamable HTTP handler (SSE and JSON response modes) and the legacy SSE handler through an in-memory HTTP bridge (an HTTP 4xx for a POST containing a malformed envelope is accepted). Raw byte peer; ids compared as JSON tokens; a liveness ping after every step. Non-trivial = batch mixing calls and notifications, id outside +-2^53, in-flight id re-use, or out-of-order completion; distinct by shape signature.",
+		Rule:        "rapid draws sequences (<=25 steps) of JSON-RPC envelopes from a grammar: id absent / string (empty, unicode, digit strings) / integer over the whole int64 range incl. +-2^53+-1 and Min/MaxInt64; method known call, known notification, unknown, empty; params absent/null/valid/wrong-typed/array; id on notification-only methods, no id on call methods; batches of any composition (negotiated version < 2025-06-18); re-use of in-flight ids; tool handlers parked on gates and released in generated order. Same scripts over the streamable HTTP handler (SSE and JSON response modes) and the legacy SSE handler through an in-memory HTTP bridge (an HTTP 4xx for a POST containing a malformed envelope is accepted). The same grammar towards an SDK client (the raw peer plays the server on the ndjson transport: ping, roots/list, sampling/createMessage, elicitation/create, the client-side notifications, server-side and invented methods; client with or without the optional handlers). Raw byte peer; ids compared as JSON tokens; a liveness ping after every step. Non-trivial = batch mixing calls and notifications, id outside +-2^53, in-flight id re-use, or out-of-order completion; distinct by shape signature.",
 		Assumptions: []string{"two calls with one id inside one batch, and a batch re-using an in-flight id, are not generated (the ndjson reader rejects the payload and ends the session; see DESIGN.md)", "valid requests may be answered with a result or an error; only malformed ones have a mandated code"},
 		LevelText:   "Grammar-based generation of envelope sequences against an independent per-id-token response counter with mandated error codes; handler completion order is scripted through gates; session liveness probed after every step.",
 		LevelNote:   "Trusts the envelope classifier in harness/c02 (written from the property text and JSON-RPC 2.0) and encoding/json's token reading.",
@@ -12,6 +12,7 @@ func init() {
 		Runs: []run{
 			{Test: "TestC02_NDJSON", Quick: 2000, Thorough: 30000},
 			{Test: "TestC02_HTTP", Quick: 1500, Thorough: 20000},
+			{Test: "TestC02_Client", Quick: 1500, Thorough: 30000},
 		},
 	})
 }
